@@ -164,8 +164,10 @@ def run(res, tier, seed):
             res.fail("oracle", f"tessellation raised {type(ex).__name__}: {str(ex)[:60]}", {"centres": centres})
         # 3. WKT
         spec = gen.voronoi_tissue(rng, n=int(rng.integers(10, 30)), npts=int(rng.integers(0, 3)), snap=4)
-        if len(spec["cells"]) >= 2:
-            pos = {i: (x, y) for i, x, y in spec["vertices"]}
+        pos = {i: (x, y) for i, x, y in spec["vertices"]}
+        if len(set(pos.values())) < len(pos):
+            res.count("wkt: snapping made two vertices coincide (a polygon with a repeated point is not a valid input; skipped)")
+        elif len(spec["cells"]) >= 2:
             rows = ["POLYGON ((" + ", ".join(f"{pos[i][0]} {pos[i][1]}" for i in cyc + [cyc[0]]) + "))" for _, cyc in spec["cells"]]
             try:
                 with impl.quiet():
